@@ -10,7 +10,7 @@ from .. import core
 
 THEOREMS = ['Pk.C17.C17_weight_only_exact', 'Pk.C17.C17_weight_only_unit', 'Pk.C17.C17_offset_average',
             'Pk.C17.C17_streams_instance', 'Pk.C17.C17_streams_int_witness', 'Pk.C17.C17_lifting_layout',
-            'Pk.C17.C17_gaussian_kernel_mean', 'PkLA.rff_gaussian_mean']
+            'Pk.C17.C17_gaussian_kernel_mean', 'PkLA.rff_gaussian_mean', 'Pk.C17.C17_cauchy_kernel_mean_1d']
 LEVEL = 'other'
 KERNELS = ['gaussian', 'laplacian', 'cauchy']
 
@@ -97,7 +97,7 @@ def run(ctx):
     ctx.explanation = ('level "other": exact identities, layout and the stream model are theorems (C17_*); the feature-map formula '
                        'is tied to the code by a Float correspondence; that scipy samplers have the named distributions, the '
                        'Fourier pairs and the O(1/sqrt(D)) concentration are trusted / checked statistically only')
-    ctx.assumptions = ['scipy.stats samplers have the named distributions', 'Fourier pairs of the Laplacian / Cauchy kernels (the Gaussian one is proved: C17_gaussian_kernel_mean)', 'concentration']
+    ctx.assumptions = ['scipy.stats samplers have the named distributions', 'Fourier pair of the Laplacian kernel; product over coordinates for the Cauchy kernel (proved: Gaussian in any dimension, Cauchy in one coordinate)', 'concentration']
     ctx.proof_obligations('Properties.C17', THEOREMS)
     drv = ctx.get_driver()
     lines, meta = [], []
